@@ -217,6 +217,126 @@ def sortFinish (keys items : List Val) (rev dictMode : Bool) (k : List Frame) (w
       let (h', a) := w.heap.alloc (.list sorted)
       mkRet (.ref a) k { w with heap := h' }
 
+/-- the iteration continuation handed to the higher-order builtins (`iterNext fuel` in `callVal`) -/
+abbrev IterFn := IterKind → Val → IterSrc → List Val → List Frame → World → Core
+
+/-- calling a lambda: bind the parameters in a fresh scope pushed on the VM the closure captured,
+    evaluate the body there, pop the scope afterwards (`popScopeK` = the `finally` of make_scope) -/
+def callClosure (params : List Op) (body : Op) (vmi : Nat) (args : List Val) (k : List Frame) (w : World) : Core :=
+  match bindParams params args [] with
+  | none => mkRaise .attributeError k w
+  | some kvs =>
+    match w.vm? vmi with
+    | none => mkRaise (.unmodelled "vm") k w
+    | some vm =>
+      let (h', a) := w.heap.alloc (.dict kvs)
+      let w' := ({ w with heap := h' }).setVM vmi { vm with scopes := a :: vm.scopes }
+      { ctl := .ev body vmi, k := .popScopeK vmi :: k, w := w' }
+
+/-- `_map(container, f)` -/
+def callMap (it : IterFn) (args : List Val) (k : List Frame) (w : World) : Core :=
+  match args with
+  | [c, g] =>
+    (match c with
+     | .str cs => it .map g (.snap (cs.map (fun ch => [Val.str [ch]]))) [] k w
+     | .ref a => match w.heap.get? a with
+       | some (.list _) => it .map g (.live a 0) [] k w
+       | some (.dict kvs) => it .map g (.snap (kvs.map (fun kv => [kv.1, kv.2]))) [] k w
+       | none => mkRaise (.unmodelled "dangling") k w
+     | .opaque _ => mkRaise (.unmodelled "map-opaque") k w
+     | _ => mkRaise (.parser "not a string, list or dict") k w)
+  | _ => mkRaise .typeError k w
+
+/-- `_filter(container, f)` -/
+def callFilter (it : IterFn) (args : List Val) (k : List Frame) (w : World) : Core :=
+  match args with
+  | [c, .none] =>
+    -- `filter(None, xs)`: the truthy elements
+    (match c with
+     | .ref a => match w.heap.get? a with
+       | some (.list xs) =>
+         let (h', a') := w.heap.alloc (.list (xs.filter (truthy w.heap)))
+         mkRet (.ref a') k { w with heap := h' }
+       | _ => mkRaise (.parser "not a list") k w
+     | .opaque _ => mkRaise (.unmodelled "filter-opaque") k w
+     | _ => mkRaise (.parser "not a list") k w)
+  | [c, g] =>
+    (match c with
+     | .ref a => match w.heap.get? a with
+       | some (.list _) => it .filter g (.live a 0) [] k w
+       | _ => mkRaise (.parser "not a list") k w
+     | .opaque _ => mkRaise (.unmodelled "filter-opaque") k w
+     | _ => mkRaise (.parser "not a list") k w)
+  | _ => mkRaise .typeError k w
+
+/-- `_reduce(container, f)` -/
+def callReduce (it : IterFn) (args : List Val) (k : List Frame) (w : World) : Core :=
+  match args with
+  | [c, g] =>
+    (match c with
+     | .opaque _ => mkRaise (.unmodelled "reduce-opaque") k w
+     | _ =>
+       match iterItems w.heap c with
+       | .error .typeError => mkRaise (.parser "not an Iterable") k w
+       | .error e => mkRaise e k w
+       | .ok [] => mkRaise .typeError k w
+       | .ok (x :: rest) =>
+         let src : IterSrc := match c with
+           | .ref a => (match w.heap.get? a with
+             | some (.list _) => .live a 1
+             | _ => .snap (rest.map (fun v => [v])))
+           | _ => .snap (rest.map (fun v => [v]))
+         it .reduce g src [x] k w)
+  | _ => mkRaise .typeError k w
+
+/-- `_sorted(container, key=None, reverse=False)` -/
+def callSorted (it : IterFn) (args : List Val) (k : List Frame) (w : World) : Core :=
+  match args with
+  | c :: rest =>
+    if rest.length > 2 then mkRaise .typeError k w else
+    let key := rest.headD .none
+    let revV := (rest.drop 1).headD (.bool false)
+    let dictMode := isDict w.heap c
+    let itemsR : R (List Val) :=
+      if dictMode then
+        (match c with
+         | .ref a => match w.heap.get? a with
+           | some (.dict kvs) => .ok (kvs.map (fun kv => .tuple [kv.1, kv.2]))
+           | _ => U "dangling"
+         | _ => U "dangling")
+      else iterItems w.heap c
+    (match itemsR, reverseFlag w.heap revV with
+     | .error e, _ => mkRaise e k w
+     | _, .error e => mkRaise e k w
+     | .ok items, .ok rev =>
+       match key with
+       | .none => sortFinish items items rev dictMode k w
+       | .opaque _ => mkRaise (.unmodelled "sorted-key-opaque") k w
+       | _ =>
+         if isCallable key then
+           let argsOf (itm : Val) : List Val :=
+             if dictMode then (match itm with | .tuple [a, b] => [a, b] | v => [v]) else [itm]
+           it (.sortKeys items rev dictMode) key (.snap (items.map argsOf)) [] k w
+         else if items.isEmpty then sortFinish [] [] rev dictMode k w
+         else mkRaise .typeError k w)
+  | [] => mkRaise .typeError k w
+
+/-- the host probe: logs its argument, then returns / raises what the probe table says -/
+def callProbe (args : List Val) (k : List Frame) (w : World) : Core :=
+  match args with
+  | [a] =>
+    let w' := { w with log := .probe a :: w.log }
+    let key? : Option Int := match a with
+      | .dec d _ => if d.isIntegral then some d.toInt else none
+      | .int i => some i
+      | _ => none
+    let act? : Option ProbeAct := key?.bind (fun i => (w.probes.find? (fun p => p.1 == i)).map (·.2))
+    (match act? with
+     | some (ProbeAct.ret v) => mkRet v k w'
+     | some (ProbeAct.raise e) => mkRaise e k w'
+     | none => mkRet a k w')
+  | _ => mkRaise .typeError k w
+
 mutual
 /-- call a function value with evaluated arguments.  `fuel` bounds the chain
     apply(apply(apply(…))) of host trampolines inside one step. -/
@@ -224,115 +344,16 @@ def callVal : Nat → Val → List Val → List Frame → World → Core
   | 0, _, _, k, w => mkRaise (.unmodelled "call-fuel") k w
   | fuel + 1, f, args, k, w =>
     match f with
-    | .closure params body vmi =>
-      (match bindParams params args [] with
-       | none => mkRaise .attributeError k w
-       | some kvs =>
-         match w.vm? vmi with
-         | none => mkRaise (.unmodelled "vm") k w
-         | some vm =>
-           let (h', a) := w.heap.alloc (.dict kvs)
-           let w' := ({ w with heap := h' }).setVM vmi { vm with scopes := a :: vm.scopes }
-           { ctl := .ev body vmi, k := .popScopeK vmi :: k, w := w' })
+    | .closure params body vmi => callClosure params body vmi args k w
     | .builtin name =>
-      let h := w.heap
-      if name == "map" then
-        (match args with
-         | [c, g] =>
-           (match c with
-            | .str cs => iterNext fuel .map g (.snap (cs.map (fun ch => [Val.str [ch]]))) [] k w
-            | .ref a => match h.get? a with
-              | some (.list _) => iterNext fuel .map g (.live a 0) [] k w
-              | some (.dict kvs) => iterNext fuel .map g (.snap (kvs.map (fun kv => [kv.1, kv.2]))) [] k w
-              | none => mkRaise (.unmodelled "dangling") k w
-            | .opaque _ => mkRaise (.unmodelled "map-opaque") k w
-            | _ => mkRaise (.parser "not a string, list or dict") k w)
-         | _ => mkRaise .typeError k w)
+      if name == "map" then callMap (iterNext fuel) args k w
       else if (args.head?.map isTypeObject).getD false then mkRaise (.unmodelled "type-object-arg") k w
-      else if name == "filter" then
-        (match args with
-         | [c, .none] =>
-           -- `filter(None, xs)`: the truthy elements
-           (match c with
-            | .ref a => match h.get? a with
-              | some (.list xs) =>
-                let (h', a') := h.alloc (.list (xs.filter (truthy h)))
-                mkRet (.ref a') k { w with heap := h' }
-              | _ => mkRaise (.parser "not a list") k w
-            | .opaque _ => mkRaise (.unmodelled "filter-opaque") k w
-            | _ => mkRaise (.parser "not a list") k w)
-         | [c, g] =>
-           (match c with
-            | .ref a => match h.get? a with
-              | some (.list _) => iterNext fuel .filter g (.live a 0) [] k w
-              | _ => mkRaise (.parser "not a list") k w
-            | .opaque _ => mkRaise (.unmodelled "filter-opaque") k w
-            | _ => mkRaise (.parser "not a list") k w)
-         | _ => mkRaise .typeError k w)
-      else if name == "reduce" then
-        (match args with
-         | [c, g] =>
-           (match c with
-            | .opaque _ => mkRaise (.unmodelled "reduce-opaque") k w
-            | _ =>
-              match iterItems h c with
-              | .error .typeError => mkRaise (.parser "not an Iterable") k w
-              | .error e => mkRaise e k w
-              | .ok [] => mkRaise .typeError k w
-              | .ok (x :: rest) =>
-                let src : IterSrc := match c with
-                  | .ref a => (match h.get? a with
-                    | some (.list _) => .live a 1
-                    | _ => .snap (rest.map (fun v => [v])))
-                  | _ => .snap (rest.map (fun v => [v]))
-                iterNext fuel .reduce g src [x] k w)
-         | _ => mkRaise .typeError k w)
-      else if name == "sorted" then
-        (match args with
-         | c :: rest =>
-           if rest.length > 2 then mkRaise .typeError k w else
-           let key := rest.headD .none
-           let revV := (rest.drop 1).headD (.bool false)
-           let dictMode := isDict h c
-           let itemsR : R (List Val) :=
-             if dictMode then
-               (match c with
-                | .ref a => match h.get? a with
-                  | some (.dict kvs) => .ok (kvs.map (fun kv => .tuple [kv.1, kv.2]))
-                  | _ => U "dangling"
-                | _ => U "dangling")
-             else iterItems h c
-           (match itemsR, reverseFlag h revV with
-            | .error e, _ => mkRaise e k w
-            | _, .error e => mkRaise e k w
-            | .ok items, .ok rev =>
-              match key with
-              | .none => sortFinish items items rev dictMode k w
-              | .opaque _ => mkRaise (.unmodelled "sorted-key-opaque") k w
-              | _ =>
-                if isCallable key then
-                  let argsOf (it : Val) : List Val :=
-                    if dictMode then (match it with | .tuple [a, b] => [a, b] | v => [v]) else [it]
-                  iterNext fuel (.sortKeys items rev dictMode) key (.snap (items.map argsOf)) [] k w
-                else if items.isEmpty then sortFinish [] [] rev dictMode k w
-                else mkRaise .typeError k w)
-         | [] => mkRaise .typeError k w)
+      else if name == "filter" then callFilter (iterNext fuel) args k w
+      else if name == "reduce" then callReduce (iterNext fuel) args k w
+      else if name == "sorted" then callSorted (iterNext fuel) args k w
       else ofBR (callPure name args w.bstate) k w
     | .host id =>
-      if id == "probe" then
-        (match args with
-         | [a] =>
-           let w' := { w with log := .probe a :: w.log }
-           let key? : Option Int := match a with
-             | .dec d _ => if d.isIntegral then some d.toInt else none
-             | .int i => some i
-             | _ => none
-           let act? : Option ProbeAct := key?.bind (fun i => (w.probes.find? (fun p => p.1 == i)).map (·.2))
-           (match act? with
-            | some (ProbeAct.ret v) => mkRet v k w'
-            | some (ProbeAct.raise e) => mkRaise e k w'
-            | none => mkRet a k w')
-         | _ => mkRaise .typeError k w)
+      if id == "probe" then callProbe args k w
       else if id == "apply" then
         (match args with
          | g :: rest => callVal fuel g rest k w
